@@ -97,6 +97,10 @@ func runC06(c *Ctx) {
 	parallel(nWS, 14, func(i int) {
 		r := root.Fork(uint64(i))
 		sw := GenScopeWS(r, ScopeCfg{JoinPct: -1, GluePct: -1})
+		if r.Fork(0x66696c65).Chance(1, 5) {
+			sw.AddFileNamedLikeAGlobal(r.Fork(0x66696c66))
+			c.Count("workspaces_with_a_file_named_like_a_global", 1)
+		}
 		if r.Fork(0x726f6f74).Chance(1, 8) {
 			sw.Reroot([]string{"rootA", "rootB"}) // the files are spread over two workspace folders next to each other
 			c.Count("multi_root_workspaces", 1)
